@@ -29,7 +29,7 @@ use std::collections::{BTreeMap, BTreeSet};
 use std::fmt::Debug;
 use vh::auth::{call_mocked, view};
 use vh::cli::Runner;
-use vh::engine::{dig, Bounds, StepCtx, Violation, World};
+use vh::engine::{dig, Bounds, Stats, StepCtx, Violation, World};
 use vh::ensure;
 use vh::envx;
 use vh::report::Tier;
@@ -131,6 +131,37 @@ impl Book {
     }
 }
 
+/// Ledgers that pass in an idle probe: beyond the lifetime of every temporary entry and of every
+/// TTL extension the library performs (largest 518400), below the persistent TTL of `envx::mk_env`.
+const IDLE: u32 = 600_000;
+
+/// The `IdleProbe` operation every world of this file offers once per state: no call at all; on a
+/// rebuilt throw-away copy of the state `IDLE` ledgers pass without any invocation and the world's
+/// complete observation is repeated against the unchanged model (registry contents are not
+/// time-dependent). A disagreement is reported as `state-survives-idle` (the oracle of the
+/// observation that failed is named in the detail). The explored instance is not touched, hence
+/// "state unchanged" for the engine. The probe's getter statistics are kept apart
+/// (`…-after-long-idle`) from the counters the vacuity rule relies on.
+fn idle_probe<W: World>(
+    cx: &mut StepCtx<W>,
+    env: impl for<'x> Fn(&'x W::Inst) -> &'x Env,
+    observe: impl FnOnce(&W::Inst, &mut StepCtx<W>) -> Result<(), Violation>,
+) -> Result<bool, Violation> {
+    let copy = cx.rebuild();
+    envx::advance(env(&copy), IDLE);
+    let mut own = Stats::default();
+    {
+        let mut cx2 = StepCtx { world: cx.world, seed: cx.seed, hist: cx.hist, stats: &mut own };
+        observe(&copy, &mut cx2)
+            .map_err(|v| Violation::new("state-survives-idle", format!("after {IDLE} ledgers without any call [{}] {}", v.oracle, v.detail)))?;
+    }
+    for (k, n) in &own.counters {
+        cx.stats.count(&format!("{k}-after-long-idle"), *n);
+    }
+    cx.stats.count("idle-probes", 1);
+    Ok(false)
+}
+
 fn seed_call(e: &Env, c: &Address, f: &str, args: SVec<Val>) {
     if let Err(x) = call_mocked(e, c, f, args) {
         panic!("seed construction: {f} failed: {x:?}");
@@ -150,6 +181,8 @@ enum CtiOp {
     AddIssuer(u16, Vec<u32>),
     RemoveIssuer(u16),
     Update(u16, Vec<u32>),
+    /// see `idle_probe`
+    IdleProbe,
 }
 
 #[derive(Clone, Debug, Default, Hash)]
@@ -193,6 +226,7 @@ impl Cti {
             CtiOp::AddIssuer(x, l) => ("add_trusted_issuer", (i.book.a(*x), SVec::from_slice(e, l)).into_val(e)),
             CtiOp::RemoveIssuer(x) => ("remove_trusted_issuer", (i.book.a(*x),).into_val(e)),
             CtiOp::Update(x, l) => ("update_issuer_claim_topics", (i.book.a(*x), SVec::from_slice(e, l)).into_val(e)),
+            CtiOp::IdleProbe => return false,
         };
         call_mocked(e, &i.c, f, args).is_ok()
     }
@@ -268,6 +302,7 @@ impl Cti {
                     must(true, "valid-op-accepted", format!("issuer {x} is trusted and every topic of the list exists"))
                 }
             }
+            CtiOp::IdleProbe => open(),
         }
     }
 
@@ -288,6 +323,7 @@ impl Cti {
             CtiOp::RemoveIssuer(x) => {
                 m.issuers.remove(x);
             }
+            CtiOp::IdleProbe => {}
         }
     }
 
@@ -431,6 +467,7 @@ impl World for Cti {
         for t in self.topics.iter().chain(self.probe_topics.iter()) {
             v.push(CtiOp::RemoveTopic(*t));
         }
+        v.push(CtiOp::IdleProbe);
         v
     }
 
@@ -441,6 +478,7 @@ impl World for Cti {
             CtiOp::AddIssuer(..) => "cti.add_trusted_issuer",
             CtiOp::RemoveIssuer(_) => "cti.remove_trusted_issuer",
             CtiOp::Update(..) => "cti.update_issuer_claim_topics",
+            CtiOp::IdleProbe => "idle-probe",
         }
         .into()
     }
@@ -450,6 +488,9 @@ impl World for Cti {
     }
 
     fn step(&self, i: &mut CtiInst, m: &mut CtiModel, op: &CtiOp, cx: &mut StepCtx<Self>) -> Result<bool, Violation> {
+        if matches!(op, CtiOp::IdleProbe) {
+            return idle_probe(cx, |c: &CtiInst| &c.e, |c, cx2| self.observe(c, m, cx2));
+        }
         let x = self.expect(m, op);
         let ok = self.call(i, op);
         check_outcome(ok, &x, op)?;
@@ -528,6 +569,8 @@ enum KeyOp {
     Remove(u16, u32, u16),
     /// allow_key with an empty public key
     AllowEmpty(u32, u16),
+    /// see `idle_probe`
+    IdleProbe,
 }
 
 #[derive(Clone, Copy, Debug, PartialEq)]
@@ -595,12 +638,14 @@ impl Keys {
                 ("remove_key", (Bytes::from_slice(e, &pk), i.regs.a(*r), s, *t).into_val(e))
             }
             KeyOp::AllowEmpty(t, r) => ("allow_key", (Bytes::new(e), i.regs.a(*r), 101u32, *t).into_val(e)),
+            KeyOp::IdleProbe => return false,
         };
         call_mocked(e, &i.c, f, args).is_ok()
     }
 
     fn expect(&self, m: &BTreeSet<Triple>, op: &KeyOp) -> Ex {
         match op {
+            KeyOp::IdleProbe => open(),
             KeyOp::AllowEmpty(..) => must(false, "invalid-input-refused", "the public key is empty"),
             KeyOp::Remove(k, t, r) => {
                 if m.contains(&(*k, *t, *r)) {
@@ -776,6 +821,7 @@ impl World for Keys {
             v.push(KeyOp::Allow(self.keys[0], wrap::FORBIDDEN_TOPIC, self.regs[0]));
             v.push(KeyOp::AllowEmpty(self.topics[0], self.regs[0]));
         }
+        v.push(KeyOp::IdleProbe);
         v
     }
 
@@ -783,6 +829,7 @@ impl World for Keys {
         match op {
             KeyOp::Allow(..) | KeyOp::AllowEmpty(..) => "keys.allow_key",
             KeyOp::Remove(..) => "keys.remove_key",
+            KeyOp::IdleProbe => "idle-probe",
         }
         .into()
     }
@@ -792,6 +839,9 @@ impl World for Keys {
     }
 
     fn step(&self, i: &mut KeyInst, m: &mut BTreeSet<Triple>, op: &KeyOp, cx: &mut StepCtx<Self>) -> Result<bool, Violation> {
+        if matches!(op, KeyOp::IdleProbe) {
+            return idle_probe(cx, |c: &KeyInst| &c.e, |c, cx2| self.observe(c, m, cx2));
+        }
         let x = self.expect(m, op);
         let ok = self.call(i, op);
         check_outcome(ok, &x, op)?;
@@ -803,7 +853,7 @@ impl World for Keys {
                 KeyOp::Remove(k, t, r) => {
                     m.remove(&(*k, *t, *r));
                 }
-                KeyOp::AllowEmpty(..) => {}
+                KeyOp::AllowEmpty(..) | KeyOp::IdleProbe => {}
             }
             if x.oracle == "limit-exact" {
                 cx.stats.count("accepted-at-limit", 1);
@@ -870,6 +920,8 @@ enum BindOp {
     Batch(Vec<u16>),
     /// bind_tokens with the first n addresses of a pool of fresh addresses (probe, never extended)
     BigBatch(u16),
+    /// see `idle_probe`
+    IdleProbe,
 }
 
 struct Binder {
@@ -974,6 +1026,7 @@ impl Binder {
             BindOp::Unbind(x) => ("unbind_token", (i.book.a(*x),).into_val(e)),
             BindOp::Batch(l) => ("bind_tokens", (sv(&mut l.iter().copied()),).into_val(e)),
             BindOp::BigBatch(n) => ("bind_tokens", (sv(&mut (POOL..POOL + *n)),).into_val(e)),
+            BindOp::IdleProbe => return false,
         };
         call_mocked(e, &i.c, f, args).is_ok()
     }
@@ -988,6 +1041,7 @@ impl Binder {
 
     fn expect(&self, m: &BTreeSet<u16>, op: &BindOp) -> Ex {
         match op {
+            BindOp::IdleProbe => open(),
             BindOp::Bind(x) => {
                 if m.contains(x) {
                     must(false, "duplicate-refused", format!("token {x} is already bound"))
@@ -1159,6 +1213,7 @@ impl World for Binder {
                 v.push(BindOp::BigBatch(*n));
             }
         }
+        v.push(BindOp::IdleProbe);
         v
     }
 
@@ -1167,6 +1222,7 @@ impl World for Binder {
             BindOp::Bind(_) => "binder.bind_token",
             BindOp::Unbind(_) => "binder.unbind_token",
             BindOp::Batch(_) | BindOp::BigBatch(_) => "binder.bind_tokens",
+            BindOp::IdleProbe => "idle-probe",
         }
         .into()
     }
@@ -1180,6 +1236,9 @@ impl World for Binder {
     }
 
     fn step(&self, i: &mut BindInst, m: &mut BTreeSet<u16>, op: &BindOp, cx: &mut StepCtx<Self>) -> Result<bool, Violation> {
+        if matches!(op, BindOp::IdleProbe) {
+            return idle_probe(cx, |c: &BindInst| &c.e, |c, cx2| self.observe(c, m, cx2));
+        }
         let x = self.expect(m, op);
         let ok = self.call(i, op);
         check_outcome(ok, &x, op)?;
@@ -1272,6 +1331,8 @@ enum DocOp {
     /// set_document with a URI of `len` characters (probe, never extended)
     SetUri { name: u16, len: u32, at: u32 },
     Remove(u16),
+    /// see `idle_probe` (stored timestamps are values, not clocks: they must not change either)
+    IdleProbe,
 }
 
 type DocVal = (String, u8, u64); // uri, first byte of the hash, timestamp
@@ -1511,11 +1572,13 @@ impl Docs {
             }
             DocOp::SetUri { name, len, at } => self.set(i, *name, &"x".repeat(*len as usize), 9, START + 1 + at),
             DocOp::Remove(name) => call_mocked(&i.e, &i.c, "remove_document", (doc_name(&i.e, *name),).into_val(&i.e)).is_ok(),
+            DocOp::IdleProbe => false,
         }
     }
 
     fn expect(&self, m: &BTreeMap<u16, DocVal>, op: &DocOp) -> Ex {
         match op {
+            DocOp::IdleProbe => open(),
             DocOp::Remove(n) => {
                 if m.contains_key(n) {
                     must(true, "valid-op-accepted", format!("document {n} exists"))
@@ -1670,6 +1733,7 @@ impl World for Docs {
             v.push(DocOp::SetUri { name: self.universe[0], len: MAX_URI, at });
             v.push(DocOp::SetUri { name: self.universe[0], len: MAX_URI + 1, at });
         }
+        v.push(DocOp::IdleProbe);
         v
     }
 
@@ -1677,6 +1741,7 @@ impl World for Docs {
         match op {
             DocOp::Set { .. } | DocOp::SetUri { .. } => "docs.set_document",
             DocOp::Remove(_) => "docs.remove_document",
+            DocOp::IdleProbe => "idle-probe",
         }
         .into()
     }
@@ -1690,6 +1755,9 @@ impl World for Docs {
     }
 
     fn step(&self, i: &mut DocInst, m: &mut BTreeMap<u16, DocVal>, op: &DocOp, cx: &mut StepCtx<Self>) -> Result<bool, Violation> {
+        if matches!(op, DocOp::IdleProbe) {
+            return idle_probe(cx, |c: &DocInst| &c.e, |c, cx2| self.observe(c, m, cx2));
+        }
         let x = self.expect(m, op);
         let ok = self.call(i, op);
         check_outcome(ok, &x, op)?;
@@ -1706,6 +1774,7 @@ impl World for Docs {
                 DocOp::Remove(name) => {
                     m.remove(name);
                 }
+                DocOp::IdleProbe => {}
             }
             if x.oracle == "limit-exact" {
                 cx.stats.count("accepted-at-limit", 1);
@@ -1784,6 +1853,8 @@ enum IrsOp {
     AddCd(u16, Vec<u8>),
     ModCd(u16, u32, u8),
     DelCd(u16, u32),
+    /// see `idle_probe` (recovery links are permanent, identities and country entries persistent)
+    IdleProbe,
 }
 
 #[derive(Clone, Debug, Default, Hash, PartialEq)]
@@ -1875,6 +1946,7 @@ impl Irs {
             IrsOp::AddCd(acc, l) => ("add_country_data_entries", (a(acc), Self::cds(e, l)).into_val(e)),
             IrsOp::ModCd(acc, ix, v) => ("modify_country_data", (a(acc), *ix, cd_of(e, *v)).into_val(e)),
             IrsOp::DelCd(acc, ix) => ("delete_country_data", (a(acc), *ix).into_val(e)),
+            IrsOp::IdleProbe => return false,
         };
         call_mocked(e, &i.c, f, args).is_ok()
     }
@@ -1895,6 +1967,7 @@ impl Irs {
             );
         }
         match op {
+            IrsOp::IdleProbe => open(),
             IrsOp::Add { acc, cds, .. } => {
                 if m.rec.contains_key(acc) {
                     must(false, "recovered-never-registered-again", format!("account {acc} was recovered to {:?}", m.rec.get(acc)))
@@ -2001,6 +2074,7 @@ impl Irs {
             IrsOp::DelCd(acc, ix) => {
                 m.ids.get_mut(acc).unwrap().2.remove(*ix as usize);
             }
+            IrsOp::IdleProbe => {}
         }
     }
 
@@ -2134,6 +2208,7 @@ impl World for Irs {
                 v.push(IrsOp::DelCd(*acc, *ix));
             }
         }
+        v.push(IrsOp::IdleProbe);
         v
     }
 
@@ -2146,6 +2221,7 @@ impl World for Irs {
             IrsOp::AddCd(..) => "irs.add_country_data_entries",
             IrsOp::ModCd(..) => "irs.modify_country_data",
             IrsOp::DelCd(..) => "irs.delete_country_data",
+            IrsOp::IdleProbe => "idle-probe",
         }
         .into()
     }
@@ -2159,6 +2235,11 @@ impl World for Irs {
     }
 
     fn step(&self, i: &mut IrsInst, m: &mut IrsModel, op: &IrsOp, cx: &mut StepCtx<Self>) -> Result<bool, Violation> {
+        if matches!(op, IrsOp::IdleProbe) {
+            // the observation adopts the registry's entry order: on a copy of the model
+            let mut m2 = m.clone();
+            return idle_probe(cx, |c: &IrsInst| &c.e, |c, cx2| self.observe(c, &mut m2, cx2));
+        }
         let x = self.expect(m, op);
         let ok = self.call(i, op);
         check_outcome(ok, &x, op)?;
@@ -2221,6 +2302,8 @@ use stellar_tokens::rwa::identity_claims as ic;
 enum ClaimOp {
     Add { iss: u16, topic: u32, var: u8 },
     Remove { iss: u16, topic: u32 },
+    /// see `idle_probe`
+    IdleProbe,
 }
 
 struct Claims {
@@ -2267,6 +2350,7 @@ impl Claims {
                 let id = self.id_of(i, *iss, *topic);
                 call_mocked(e, &i.c, "remove_claim", (id,).into_val(e)).ok().map(|_| None)
             }
+            ClaimOp::IdleProbe => None,
         }
     }
 
@@ -2361,6 +2445,7 @@ impl World for Claims {
                 v.push(ClaimOp::Remove { iss, topic: *t });
             }
         }
+        v.push(ClaimOp::IdleProbe);
         v
     }
 
@@ -2368,6 +2453,7 @@ impl World for Claims {
         match op {
             ClaimOp::Add { .. } => "claims.add_claim",
             ClaimOp::Remove { .. } => "claims.remove_claim",
+            ClaimOp::IdleProbe => "idle-probe",
         }
         .into()
     }
@@ -2377,7 +2463,11 @@ impl World for Claims {
     }
 
     fn step(&self, i: &mut ClaimInst, m: &mut Self::Model, op: &ClaimOp, cx: &mut StepCtx<Self>) -> Result<bool, Violation> {
+        if matches!(op, ClaimOp::IdleProbe) {
+            return idle_probe(cx, |c: &ClaimInst| &c.e, |c, cx2| self.observe(c, m, cx2));
+        }
         let x = match op {
+            ClaimOp::IdleProbe => unreachable!(),
             ClaimOp::Add { iss, .. } => {
                 if *iss == REJECTING {
                     must(false, "invalid-input-refused", "the issuer rejects the claim")
@@ -2406,6 +2496,7 @@ impl World for Claims {
                 ClaimOp::Remove { iss, topic } => {
                     m.remove(&(*iss, *topic));
                 }
+                ClaimOp::IdleProbe => {}
             }
             self.observe(i, m, cx)?;
         } else if x.ok == Some(false) {
@@ -2504,5 +2595,6 @@ pub fn run(tier: Tier, r: &mut Runner) {
             "refused.absent-removal-refused",
             "refused.recovered-never-registered-again",
         ]);
+        rep.require_counter(&["idle-probes", "getter-comparisons-after-long-idle"]);
     }
 }
